@@ -19,13 +19,18 @@ ID = "C09"
 PROP_MODULES = ["GPVerif.Props.C09"]
 BUILD_TARGETS = ["GPVerif.Props.C09", "GPVerif.Gen.Interp", "GPVerif.Gen.StructuredAlgebra", "GPVerif.Model.Structured", "GPVerif.Model.LDL",
                  "GPVerif.Model.Proto", "GPVerif.Model.StructuredDriver"]
-RULE = ("per family (kron, index/hadamard, lcm, grid, interp, convergence, sgpr, rff, kiss, multitask models) cases are "
+RULE = ("per family (kron, index/hadamard, lcm, grid, interp, convergence, sgpr, rff, kiss, multitask models; additive-structure "
+        "KISS-GP = last_dim_is_batch at kernel level (kisslb) and as ExactGP models (add_kiss); operation histories hist_*; "
+        "copy-then-modify histories copy_*; every KISS-GP model case runs a history of 2-3 get_fantasy_model requests on the one "
+        "base object + a chained request + the base object again) cases are "
         "drawn from the seeded PRNG: sizes n<=10, n*<=5, t<=4, ranks 0..t, d<=3, unequal grid sizes/spacings/lengthscales, "
         "x1!=x2, boundary/on-node/interior interpolation points; each model case is run under the settings cells "
         "{Cholesky, CG tight, fast_pred_var full rank, fast_pred_samples} x {sgpr_diagonal_correction on/off} x "
         "{use_toeplitz on/off}; distinct = distinct (family, configuration, cell); non-trivial = rectangular / "
         "asymmetric / non-identity task covariance / at least one snapped and one interior point")
 TRUSTED = ["translator harness/translate/g4_interp_constants.py (Python ast -> Gen/Interp.lean)",
+           "translator harness/translate/g7_structured_algebra.py (Python ast -> Gen/StructuredAlgebra.lean; linear_operator "
+           "wrappers read by their meaning, in-place tensor methods `add_`/`sub_`/`+=` as mutation of every alias)",
            "modelled not verified: torch tensor ops (unsqueeze/repeat/view, floor, min), linear_operator "
            "(KroneckerProduct/Toeplitz/Interpolated/LowRankRootAddedDiag operators, Cholesky, CG, root decompositions)",
            "base kernels (RBF/Matern values) are inputs here; their formulas are C05's"]
@@ -1132,16 +1137,14 @@ def case_kiss(ctx, idx, tier, hist=None, additive=False):
         Wfs = [dense_w(Xk) for Xk, _ in reqs]
         kxx = mdl.covar_module(X, X).to_dense()
         ksx = mdl.covar_module(Xs, X).to_dense()
-    Wf = Wfs[0]
-    lines = [f"kiss {M(W)} {M(Ws)} {M(Kuu)} {M(torch.full((n,), noise))} {M(y - cmean)} {M(Wf)} {M(torch.full((nf,), noise))} {M(yf - cmean)}",
-             # additive: the d columns are interpolated one after the other on the shared 1-D grid (point i*n + a = X[a, i])
-             _interp_line(grids, X.T.reshape(-1, 1) if additive else X)]
     # the fantasy history: requests 0..nreq-1 against the base object, then the chained one (= one request with the data of
     # request 0 followed by the data of request 1: theorem wiski_chain_eq_recompute)
     hreqs = [(Wfs[k], reqs[k][1]) for k in range(len(reqs))] + [(torch.cat([Wfs[0], Wfs[1]]), torch.cat([reqs[0][1], reqs[1][1]]))]
     sq = math.sqrt(noise)
-    lines.append(f"kissh {M(W)} {M(Ws)} {M(Kuu)} {M(torch.full((n,), noise))} {M(y - cmean)} " + " ".join(
-        f"{M(Wk)} {M(torch.full((Wk.shape[0],), noise))} {M(yk - cmean)} {M(torch.full((Wk.shape[0],), sq))}" for Wk, yk in hreqs))
+    lines = [f"kissh {M(W)} {M(Ws)} {M(Kuu)} {M(torch.full((n,), noise))} {M(y - cmean)} " + " ".join(
+        f"{M(Wk)} {M(torch.full((Wk.shape[0],), noise))} {M(yk - cmean)} {M(torch.full((Wk.shape[0],), sq))}" for Wk, yk in hreqs),
+             # additive: the d columns are interpolated one after the other on the shared 1-D grid (point i*n + a = X[a, i])
+             _interp_line(grids, X.T.reshape(-1, 1) if additive else X)]
     desc = (f"{'hist[' + hist + '] ' if hist else ''}kiss{'-additive' if additive else ''} d={d} grid_size={gs} n={n} n*={ns} nf={nf} "
             f"cell={cell} use_toeplitz={tz}")
     pre = f"history:{hist}/" if hist else ""
@@ -1149,9 +1152,10 @@ def case_kiss(ctx, idx, tier, hist=None, additive=False):
 
     def check(rep, R):
         rt, at = CELL_TOL[cell]
-        P = parse_reply(R[0])
-        Kxx, Ksx, Kss, mean, cov, mc, cond = P[:7]
-        Pn, resp, fmc, fmean, dmean, dcov, gmean = P[7:]
+        H = parse_reply(R[0])
+        Kxx, Ksx, Kss, mean, cov, cond, gmean = H[:7]
+        H = H[6:]           # H[0] is unused below; per-request items start at H[1]
+        dmean, dcov, fmean = H[1], H[2], H[6]
         tie(ctx, "interpMeanCache/interpPredictiveMean", gmean, mean, desc)
         if strat != "InterpolatedPredictionStrategy":
             ctx.broke("correspondence", "kiss-strategy", f"{desc}: strategy is {strat}")
@@ -1194,7 +1198,6 @@ def case_kiss(ctx, idx, tier, hist=None, additive=False):
         if g <= 14 and any(abs(a[0] - b[0]) > Fraction(1, 10 ** 30) for a, b in zip(fmean, dmean)):
             ctx.broke("correspondence", "wiski-model", f"{desc}: exact WISKI cache mean differs from the exact dense conditional")
         # ---- the fantasy HISTORY: every request against the same base object, then the chained request, then the base again
-        H = parse_reply(R[2])
         per = [H[1 + 6 * k: 7 + 6 * k] for k in range(len(hreqs))]
         base_resp, gbase_resp, dPbase = H[1 + 6 * len(hreqs):]
         hp = pre + "InterpolatedPredictionStrategy/fantasy-history/"
@@ -1358,16 +1361,22 @@ def case_kisslb(ctx, idx, tier):
         m = n
     base = gpytorch.kernels.RBFKernel()
     base.lengthscale = ls
+    raised = None
     with gpytorch.settings.use_toeplitz(tz), torch.no_grad(), warnings.catch_warnings():
         quiet()
         gk = _kiss_kernel(base, [gsz], 1, bounds)
-        got = gk(x1, x2, last_dim_is_batch=True).to_dense()        # (*b, d, n, m)
-        ii1, vv1 = gk._compute_grid(x1, True)                      # (*b, d, n, 4)
         grids = [g.clone() for g in gk.grid]
-        Kf = gk._inducing_forward(last_dim_is_batch=True).to_dense().reshape(-1, gsz, gsz)
-        ev = gk.eval()
-        got_eval = ev(x1, x2, last_dim_is_batch=True).to_dense()    # eval mode: through GridKernel._cached_kernel_mat
-        got_eval2 = ev(x1, x2, last_dim_is_batch=True).to_dense()
+        try:
+            got = gk(x1, x2, last_dim_is_batch=True).to_dense()        # (*b, d, n, m)
+            ii1, vv1 = gk._compute_grid(x1, True)                      # (*b, d, n, 4)
+            Kf = gk._inducing_forward(last_dim_is_batch=True).to_dense().reshape(-1, gsz, gsz)
+            ev = gk.eval()
+            got_eval = ev(x1, x2, last_dim_is_batch=True).to_dense()    # eval mode: through GridKernel._cached_kernel_mat
+            got_eval2 = ev(x1, x2, last_dim_is_batch=True).to_dense()
+            if got.shape != torch.Size([*bshape, d, n, m]) or ii1.shape[:-1] != torch.Size([*bshape, d, n]):
+                raised = f"shapes {tuple(got.shape)} / {tuple(ii1.shape)} instead of {(*bshape, d, n, m)} / {(*bshape, d, n, 4)}"
+        except Exception as e:  # noqa: BLE001  a legal additive-structure call the real code rejects
+            raised = f"{type(e).__name__}: {str(e)[:200]}"
     Ks = _dim_kernels(torch, grids, [ls])
     # all coordinates as one list of 1-D points: batch-major, then dimension, then data index
     def pts(x):
@@ -1379,6 +1388,9 @@ def case_kisslb(ctx, idx, tier):
         fac = parse_reply(R[0])
         gK, K = fac[0], fac[1]
         tie(ctx, "gridForwardLastDimBatch", gK, K, desc)
+        if raised is not None:
+            rep.fail("GridInterpolationKernel/last_dim_is_batch/raises", f"{desc}: kernel(x1, x2, last_dim_is_batch=True) on {n} x {d} inputs: {raised}")
+            return
         for b in range(Kf.shape[0]):
             rep.close("GridKernel/last_dim_is_batch/factor", f"{desc}: GridKernel.forward(last_dim_is_batch=True)[{b}] vs the 1-D kernel matrix k(u_a,u_b)",
                       Kf[b], K, rtol=1e-11, atol=1e-12)
@@ -1529,9 +1541,9 @@ FAMILIES = {   # family: (case builder, #cases quick, #cases thorough)
     "hist_sgpr": (case_hist_sgpr, 12, 96), "hist_rff": (case_hist_rff, 8, 72), "hist_kiss": (case_hist_kiss, 16, 64),
     "hist_grid": (case_hist_grid, 6, 36),
     # additive-structure KISS-GP (`last_dim_is_batch=True`): kernel level and ExactGP models (incl. fantasy histories)
-    "kisslb": (case_kisslb, 12, 96), "add_kiss": (case_add_kiss, 10, 80),
+    "kisslb": (case_kisslb, 12, 72), "add_kiss": (case_add_kiss, 8, 40),
     # copy-then-modify-then-evaluate histories (deepcopy, then setters / optimiser steps / load_state_dict on the COPY)
-    "copy_sgpr": (case_copy_sgpr, 9, 54), "copy_rff": (case_copy_rff, 6, 36), "copy_kiss": (case_copy_kiss, 12, 48),
+    "copy_sgpr": (case_copy_sgpr, 6, 36), "copy_rff": (case_copy_rff, 3, 18), "copy_kiss": (case_copy_kiss, 8, 24),
 }
 
 
